@@ -6,7 +6,8 @@
 //! usage: c35 <cells.ndjson> <obs.ndjson>
 //!
 //! cell: {"id":n,"integ":"axum|actix-web|poem|warp|rocket","entry":"service|single|batch",
-//!        "method":"GET|POST","frame":"single|batch","items":[{"doc":[{"type":..,"name":..}],"op":".."}]}
+//!        "method":"GET|POST","accept":"json|mixed","frame":"single|batch",
+//!        "items":[{"doc":[{"type":..,"name":..}],"op":".."}]}
 //!
 //! The tokio current-thread runtime (and actix's System) only carries the frameworks' own plumbing:
 //! nothing about scheduling is checked here.
@@ -83,7 +84,10 @@ struct Wire {
     path: String,         // route of the entry
     uri: String,          // path plus query string (GET)
     body: Option<String>, // JSON (POST)
+    accept: Option<&'static str>,
 }
+
+const ACCEPT_MIXED: &str = r#"multipart/mixed; boundary="graphql"; subscriptionSpec="1.0""#;
 
 fn wire(cell: &Value) -> Wire {
     let integ = cell["integ"].as_str().unwrap_or("");
@@ -101,6 +105,11 @@ fn wire(cell: &Value) -> Wire {
     if entry == "service" && !matches!(integ, "axum" | "actix-web" | "poem") {
         tool_error("no ready-made service in this integration");
     }
+    let accept = match cell["accept"].as_str().unwrap_or("") {
+        "json" => None,
+        "mixed" if entry == "service" && frame == "single" => Some(ACCEPT_MIXED),
+        _ => tool_error("bad accept"),
+    };
     if method == "GET" {
         if items.len() != 1 || frame != "single" {
             tool_error("a GET cell carries exactly one request");
@@ -112,7 +121,7 @@ fn wire(cell: &Value) -> Wire {
             q.push_str(&format!("&operationName={}", pct(op)));
         }
         q.push_str(&format!("&variables={}", pct(VARIABLES)));
-        Wire { method, uri: format!("{path}?{q}"), path, body: None }
+        Wire { method, uri: format!("{path}?{q}"), path, body: None, accept }
     } else if method == "POST" {
         let reqs: Vec<Value> = items
             .iter()
@@ -132,7 +141,7 @@ fn wire(cell: &Value) -> Wire {
             "batch" => Value::Array(reqs).to_string(),
             _ => tool_error("bad frame"),
         };
-        Wire { method, uri: path.clone(), path, body: Some(body) }
+        Wire { method, uri: path.clone(), path, body: Some(body), accept }
     } else {
         tool_error("unknown method")
     }
@@ -163,6 +172,9 @@ mod ax {
     }
     pub async fn call(app: &Router, w: &super::Wire) -> (u16, Vec<u8>) {
         let mut b = http::Request::builder().method(w.method.as_str()).uri(w.uri.as_str());
+        if let Some(a) = w.accept {
+            b = b.header("accept", a);
+        }
         let body = match &w.body {
             Some(s) => {
                 b = b.header("content-type", "application/json");
@@ -206,14 +218,17 @@ mod ac {
             )
             .await;
             for (k, w) in wires {
-                let req = match w.method.as_str() {
+                let mut req = match w.method.as_str() {
                     "GET" => test::TestRequest::get().uri(&w.uri),
                     _ => test::TestRequest::post()
                         .uri(&w.uri)
                         .insert_header(("content-type", "application/json"))
                         .set_payload(w.body.clone().unwrap_or_default()),
+                };
+                if let Some(a) = w.accept {
+                    req = req.insert_header(("accept", a));
                 }
-                .to_request();
+                let req = req.to_request();
                 let before = super::counters();
                 let (status, body) = match test::try_call_service(&app, req).await {
                     Ok(resp) => {
@@ -255,7 +270,10 @@ mod po {
     pub async fn call(app: &impl Endpoint<Output = poem::Response>, w: &super::Wire) -> (u16, Vec<u8>) {
         let uri: poem::http::Uri = w.uri.parse().unwrap_or_else(|_| super::tool_error("poem uri"));
         let method: poem::http::Method = w.method.parse().unwrap_or_else(|_| super::tool_error("poem method"));
-        let b = Request::builder().method(method).uri(uri);
+        let mut b = Request::builder().method(method).uri(uri);
+        if let Some(a) = w.accept {
+            b = b.header("accept", a);
+        }
         let req = match &w.body {
             Some(s) => b.content_type("application/json").body(s.clone()),
             None => b.finish(),
@@ -345,6 +363,14 @@ fn observe(cell: &Value, w: &Wire, status: u16, body: Vec<u8>, before: (usize, u
     let errs: Vec<bool> = match &parsed {
         Some(Value::Array(a)) => a.iter().map(has_errors).collect(),
         Some(v @ Value::Object(_)) => vec![has_errors(v)],
+        // multipart/mixed; boundary=graphql: one flag per JSON part, heartbeats ({}) skipped
+        _ if text.contains("--graphql") => text
+            .lines()
+            .filter(|l| l.starts_with('{'))
+            .filter_map(|l| serde_json::from_str::<Value>(l).ok())
+            .filter(|v| v.as_object().map(|o| !o.is_empty()).unwrap_or(false))
+            .map(|v| has_errors(&v))
+            .collect(),
         _ => vec![],
     };
     let mut o = cell.as_object().cloned().unwrap_or_default();
